@@ -64,7 +64,7 @@ func loadAssumed(name string) map[string]string {
 }
 
 func propC07(c *Ctx) {
-	c.Explanation = "Decides crash-freedom obligations over the inbound call-graph context (everything reachable from NIC.DeliverNetworkPacket, the link dispatch loops, the TCP worker goroutines and the echo replier): (P1) every explicit panic in that context is in a reviewed table (discharged by another rule or assumed with a reason) - a new panic is a violation; (P2) every index, slice and fixed-width read (binary.BigEndian) obligation in that context is discharged by an interval + linear-fact abstract interpretation with predicate summaries (IsValid), caller-discharged requirement summaries (header accessors need len >= K) and term axioms (segment.data is a clone of the inbound view), or is listed with a reason in tables/assumed_c07.json; obligations on buffers the stack allocates itself (emit side) are counted, not decided; the protocol-number contract shows that what ParsePorts/ParseAddresses/HandlePacket need is at most the MinimumPacketSize the NIC checked; option parser loops make progress (no zero-length step); (P3) type assertions on heap/list/pool elements agree with the unique type inserted; (P4) integer divisions by non-constants have non-zero divisors by store invariants; (P5) the link dispatch loop is left with a nil error only on end-of-file (length 0), never because of a frame's content; (P6) the lock-order graph over the classes taken in the inbound and API contexts has no cycle. NOT decided: nil dereferences, sends on closed channels, nil-map writes, memory exhaustion, the post-barrage liveness probes of the property, the amd64 assembly."
+	c.Explanation = "Decides crash-freedom obligations over the inbound call-graph context (everything reachable from NIC.DeliverNetworkPacket, the link dispatch loops, the TCP worker goroutines and the echo replier): (P1) every explicit panic in that context is in a reviewed table (discharged by another rule or assumed with a reason) - a new panic is a violation; (P2) every index, slice and fixed-width read (binary.BigEndian) obligation in that context is discharged by an interval + linear-fact abstract interpretation with predicate summaries (IsValid), caller-discharged requirement summaries (header accessors need len >= K) and term axioms (segment.data is a clone of the inbound view), or is listed with a reason in tables/assumed_c07.json; obligations on buffers the stack allocates itself (emit side) are counted, not decided; the protocol-number contract shows that what ParsePorts/ParseAddresses/HandlePacket need is at most the MinimumPacketSize the NIC checked; option parser loops make progress (no zero-length step); (P3) type assertions on heap/list/pool elements agree with the unique type inserted; (P4) integer divisions by non-constants have non-zero divisors by store invariants; (P5) the link dispatch loop is left with a nil error only on end-of-file (length 0), never because of a frame's content; (P6) the lock-order graph over the classes taken in the inbound and API contexts has no cycle. (P1-ts) the neighbour-cache entry typestate behind the changeState panics (shared with C12/T2). NOT decided: nil dereferences, sends on closed channels, nil-map writes, memory exhaustion, the post-barrage liveness probes of the property, the amd64 assembly."
 	c.Assumptions = []string{
 		"header accessors are pure between a guard and the use it protects (no code writes inbound headers in between)",
 		"entry assumptions of transport endpoints (len(first view) >= protocol minimum) are established by NIC.DeliverTransportPacket (checked by C09/D2 and P2-contract)",
@@ -135,6 +135,10 @@ func propC07(c *Ctx) {
 			}
 		})
 	}
+	// P1-ts: the typestate argument the panic table refers to for changeState
+	p1ts := c.Rule("P1-ts", "typestate (shared with C12/T2)", "every changeState call site requests a transition allowed from every state possible there: the transition panics are unreachable", 14)
+	linkEntryTypestateRule(c, p1ts)
+
 	// P1-enum: exhaustive switches over entryState
 	p1e := c.Rule("P1-enum", "K6 exhaustive", "switches whose default arm panics cover every constant of the type", 3)
 	for _, name := range []string{"(*stack.linkAddrCache).checkLinkRequest", "(*stack.linkAddrCache).get", "(*stack.linkAddrEntry).changeState"} {
